@@ -701,3 +701,133 @@ def check_C14(tier, seed):
             "event lines (kinds, scalar text, tags, anchors) with every marker reduced to line:column, and the verdict with error message "
             "and line:column; non-trivial = distinct multi-line inputs with >= 4 events")
     return res.finish(proof, rule)
+
+
+# ------------------------------------------------------------------------------------------------
+# C15 — documents in a stream are independent
+# ------------------------------------------------------------------------------------------------
+def ev_body_renum(e, off):
+    """event without span, anchor/alias ids shifted by off"""
+    b = e.rsplit("@", 1)[0]
+    if b.startswith("AL"):
+        return "AL%d" % (int(b[2:]) + off)
+    if b.startswith("SC"):
+        parts = b[2:].split(",", 2)
+        a = int(parts[1])
+        return "SC%s,%d,%s" % (parts[0], a + off if a else 0, parts[2])
+    if b[:2] in ("QS", "MS"):
+        parts = b[2:].split(",", 1)
+        a = int(parts[0])
+        return "%s%d,%s" % (b[:2], a + off if a else 0, parts[1])
+    return b
+
+
+def max_anchor(evs):
+    m = 0
+    for e in evs:
+        b = e.rsplit("@", 1)[0]
+        if b.startswith("SC"):
+            m = max(m, int(b[2:].split(",", 2)[1]))
+        elif b[:2] in ("QS", "MS"):
+            m = max(m, int(b[2:].split(",", 1)[0]))
+    return m
+
+
+import re as _re
+KNOWN_EMPTYKEY = _re.compile(r"\{[\s\S]*[\[,]\s*:[\s\],]")
+
+
+def c15_known_header(a):
+    import re
+    last = a.rstrip("\r\n").split("\n")[-1].split("\r")[-1]
+    return re.match(r"^(---[ \t]+)?([!&][^ ]*[ \t]+)*[|>][+-]?[1-9][+-]?[ \t]*(#.*)?$", last) is not None
+
+
+def check_C15(tier, seed):
+    res = Result("C15", tier, seed)
+    proof = prepare("C15", res)
+    rng = gen.rng_for(seed, "C15")
+    cases, dist = parse_cases(tier, seed, "C15", thin=4)
+    cases = [s for s in cases if "﻿" not in s]
+    lines = [enc(s) for s in cases]
+    if res.harness_ok and res.model_ok:
+        single = run_hx(["events", "str"], lines)
+        acc = [i for i in range(len(cases)) if single[i].endswith("|OK")]
+        accA = [i for i in acc if cases[i].endswith(("\n", "\r"))]
+        # anchors / directives / open-looking endings first: the interesting state carriers
+        def interesting(i):
+            s = cases[i]
+            return ("&" in s) + ("%" in s) + ("*" in s) + ("|" in s or ">" in s) + ("[" in s or "{" in s) + ("\n " in s)
+        accA.sort(key=lambda i: -interesting(i))
+        hot = accA[:400]
+        n_pairs = 6000 if tier == "quick" else 200000
+        combos = []
+        for _ in range(n_pairs):
+            k = rng.choice([2, 2, 2, 3, 4])
+            parts = [rng.choice(hot if rng.random() < 0.5 else accA) for _ in range(k - 1)] + [rng.choice(acc)]
+            combos.append(parts)
+        texts = ["...\n".join(cases[i] for i in parts[:-1]) + "...\n" + cases[parts[-1]] for parts in combos]
+        # A ends with a break, so the marker sits on its own line
+        tl = [enc(t) for t in texts]
+        known = core.known_findings("C15")
+        kf = set()
+        for b in ("str", "iter"):
+            got = run_hx(["events", b], tl)
+            for j, parts in enumerate(combos):
+                res.evaluations += 1
+                exp = ["SS"]
+                off = 0
+                for i in parts:
+                    evs = split_line(single[i])[0]
+                    inner = evs[1:-1]
+                    exp += [ev_body_renum(e, off) for e in inner]
+                    off += max_anchor(inner)
+                exp.append("SE")
+                gevs, gfin = split_line(got[j])
+                g = [ev_body_renum(e, 0) for e in gevs]
+                if (gfin != "OK" or g != exp) and known and KNOWN_EMPTYKEY.search(texts[j]):
+                    kf.add("%s: %s" % (known[0]["class"], known[0]["what"]))
+                elif gfin != "OK" or g != exp:
+                    res.add_violation("concatenation with document-end marker lines does not parse to the documents of the parts (%s)" % b,
+                                      dict(input=texts[j], codepoints=tl[j], parts=[cases[i] for i in parts], backend=b),
+                                      got=";".join(g)[-600:] + "|" + gfin, expected=";".join(exp)[-600:])
+                elif b == "str" and sum(interesting(i) for i in parts) >= 2:
+                    res.nontrivial.add(texts[j])
+        # through the loading interface: no anchor of an earlier document resolves in a later one
+        probes = []
+        for i in hot[:300]:
+            if "&" in cases[i]:
+                import re
+                for name in set(re.findall(r"&([A-Za-z0-9]+)", cases[i])):
+                    probes.append(cases[i] + "...\n*" + name + "\n")
+                    probes.append(cases[i] + "--- *" + name + "\n")
+        if probes:
+            pl = [enc(t) for t in probes]
+            ld = run_hx(["load", "yaml", "eager"], pl)
+            it = run_hx(["events", "str"], pl)
+            for j, t in enumerate(probes):
+                res.evaluations += 1
+                pe = [e.rsplit("@", 1)[0] for e in split_line(it[j])[0]]
+                # the probe document really is a lone alias (the text was not swallowed by an open scalar) and was accepted
+                lone_alias = len(pe) >= 5 and pe[-3].startswith("AL") and pe[-4].startswith("DS") and pe[-2] == "DE"
+                if lone_alias and (it[j].endswith("|OK") or not ld[j].startswith("ERR")):
+                    res.add_violation("an alias resolved through an anchor of an earlier document", dict(input=t, codepoints=pl[j]),
+                                      load=ld[j][-300:], events=it[j][-300:])
+        res.known += sorted(kf)
+        m = run_mx(["events", "str"], tl[:3000])
+        g = run_hx(["events", "str"], tl[:3000])
+        for j in range(len(m)):
+            me, mf = split_line(m[j])
+            ie, if_ = split_line(g[j])
+            if me != ie or fin_pos(mf) != fin_pos(if_):
+                res.add_tie_break("correspondence on concatenated streams: model != implementation", case=texts[j], model=m[j][-300:], impl=g[j][-300:])
+        res.coverage["input_distribution"] = dict(groups=dist, accepted=len(acc), accepted_ending_in_break=len(accA), concatenations=len(combos),
+                                                  cross_document_alias_probes=len(probes))
+        res.coverage["traces_validated_against_impl"] = len(m)
+        for j in (0, len(texts) // 2, len(texts) - 1):
+            res.samples.append(dict(input=texts[j][:300]))
+    rule = ("accepted streams of the C01 space (suite, soups, line soups, mutations, exhaustive) concatenated 2-4 at a time with a "
+            "document-end marker line; expected events = events of the parts with anchor ids renumbered; cross-document alias probes "
+            "through iterator and loader; non-trivial = distinct concatenations whose parts carry anchors, directives, block scalars, flow "
+            "collections or indentation")
+    return res.finish(proof, rule)
